@@ -185,3 +185,27 @@ Lemma function_table_signatures :
                     | None => false
                     end) function_table = true.
 Proof. vm_compute. reflexivity. Qed.
+
+Lemma levels_ordered :
+  0 < lvl_pipe < lvl_or /\ lvl_or < lvl_and /\ lvl_and < lvl_cmp /\ lvl_cmp < lvl_flatten /\
+  lvl_flatten < lvl_proj_stop /\ lvl_proj_stop <= lvl_star /\ lvl_star < lvl_filter /\
+  lvl_filter < lvl_dot /\ lvl_dot < lvl_not /\ lvl_not < lvl_brace /\ lvl_brace < lvl_bracket /\
+  lvl_bracket < lvl_call.
+Proof. unfold lvl_pipe, lvl_or, lvl_and, lvl_cmp, lvl_flatten, lvl_proj_stop, lvl_star, lvl_filter, lvl_dot, lvl_not,
+       lvl_brace, lvl_bracket, lvl_call. lia. Qed.
+
+Section WithNum.
+Context {NumO : NumOps}.
+Lemma or_left_assoc (a b c : expr) :
+  wp a = true -> wp b = true -> wp c = true ->
+  lvl_or <= rl a -> lvl_or < lmin b -> lvl_or < lmin c -> lvl_or <= rl b ->
+  wp (EOr (EOr a b) c) = true /\ wp (EOr a (EOr b c)) = false.
+Proof.
+  intros Ha Hb Hc H1 H2 H3 H4. split.
+  - cbn [wp rl lmin]. rewrite Ha, Hb, Hc. cbn [andb].
+    repeat (apply andb_true_iff; split); try lia; reflexivity.
+  - cbn [wp rl lmin]. rewrite Ha, Hb, Hc. cbn [andb].
+    assert (E : (lvl_or <? Z.min (lmin b) lvl_or) = false) by (unfold lvl_or in *; lia).
+    rewrite E. rewrite !andb_false_r. reflexivity.
+Qed.
+End WithNum.
